@@ -20,7 +20,7 @@ type vFaultSpec struct {
 	arg  int
 }
 
-var vFaultNames = map[vFault]string{vNoFault: "nofault", vErrBefore: "errbefore", vErrAfter: "errafter", vCorrupt: "corrupt", vTruncate: "truncate", vMissing: "missing"}
+var vFaultNames = map[vFault]string{vNoFault: "nofault", vErrBefore: "errbefore", vErrAfter: "errafter", vCorrupt: "corrupt", vTruncate: "truncate", vMissing: "missing", vHang: "errbefore"}
 
 func vPlanSX(fs []vFaultSpec) vsx {
 	var items []vsx
@@ -123,6 +123,14 @@ func driveC13(t *testing.T, out *vEmitter) {
 				plans = append(plans, []vFaultSpec{{k, vTruncate, ln}})
 			}
 		}
+		// the store is down for the whole request (every operation fails), or stops answering (every operation hangs until
+		// the request's own deadline)
+		var outage, hang []vFaultSpec
+		for k := 0; k < n+6; k++ {
+			outage = append(outage, vFaultSpec{k, vErrBefore, 0})
+			hang = append(hang, vFaultSpec{k, vHang, 0})
+		}
+		plans = append(plans, outage, hang, []vFaultSpec{{0, vHang, 0}})
 		if vThorough() {
 			for k1 := 0; k1 < n+1; k1++ {
 				for k2 := k1 + 1; k2 < n+2; k2++ {
@@ -145,6 +153,7 @@ func driveC13(t *testing.T, out *vEmitter) {
 			}
 			e.redis.mu.Unlock()
 			keysBefore := e.redis.Keys()
+			b.deadline = 400 * time.Millisecond
 			res := sc.act(e, b)
 			ops := e.redis.Ops()
 			e.redis.ResetOps() // clears the plan
@@ -206,7 +215,7 @@ func vC13Observe(out *vEmitter, e *vEnv, scenario string, plan []vFaultSpec, res
 		if op.Kind == "get" {
 			return true
 		}
-		return k == vErrBefore || k == vErrAfter
+		return k == vErrBefore || k == vErrAfter || k == vHang
 	}
 	for _, op := range ops {
 		if !effective(op) {
